@@ -197,6 +197,32 @@ static const char *xattr_details =
 "    system.posix_acl_access=0sSGVsbG8gdGhlcmUgOi0pCg==\n"
 "\n\n";
 
+/* user and group IDs are 32 bit numbers; decimal, octal or hexadecimal */
+static int parse_id(const char *arg, const char *what, unsigned int *out)
+{
+	unsigned long long value;
+	const char *ptr = arg;
+	char *end;
+
+	while (isspace((unsigned char)*ptr))
+		++ptr;
+
+	if (!isdigit((unsigned char)*ptr))
+		goto fail;
+
+	errno = 0;
+	value = strtoull(ptr, &end, 0);
+
+	if (errno != 0 || end == ptr || *end != '\0' || value > 0x0FFFFFFFFULL)
+		goto fail;
+
+	*out = value;
+	return 0;
+fail:
+	fprintf(stderr, "%s: '%s' is not a valid 32 bit ID.\n", what, arg);
+	return -1;
+}
+
 void process_command_line(options_t *opt, int argc, char **argv)
 {
 	bool have_compressor;
@@ -220,11 +246,17 @@ void process_command_line(options_t *opt, int argc, char **argv)
 			opt->dirscan_flags &= ~DIR_SCAN_KEEP_GID;
 			break;
 		case 'u':
-			opt->force_uid_value = strtol(optarg, NULL, 0);
+			if (parse_id(optarg, "--set-uid",
+				     &opt->force_uid_value)) {
+				exit(EXIT_FAILURE);
+			}
 			opt->dirscan_flags &= ~DIR_SCAN_KEEP_UID;
 			break;
 		case 'g':
-			opt->force_gid_value = strtol(optarg, NULL, 0);
+			if (parse_id(optarg, "--set-gid",
+				     &opt->force_gid_value)) {
+				exit(EXIT_FAILURE);
+			}
 			opt->dirscan_flags &= ~DIR_SCAN_KEEP_GID;
 			break;
 		case 'T':
